@@ -178,18 +178,25 @@ func (ft *FT) exit(b *Body) {
 		ft.oblige(&Obligation{Name: "vacuity:exit-reachable", Kind: "vacuity", Tags: ft.con.Tags, Guard: exit, Goal: tFalse, ExpectSat: true, Src: "some return is reachable"})
 	}
 	for i, c := range ft.con.Ensures {
-		g, err := env.EvalBool(c.Expr)
-		if err != nil {
-			ft.shapeFail(c, err)
-			continue
-		}
 		name := "post"
 		if c.Name != "" {
 			name += "@" + c.Name
 		} else {
 			name += fmt.Sprintf("#%d", i+1)
 		}
-		ft.oblige(&Obligation{Name: name, Kind: "post", Tags: ft.clauseTags(c), Guard: exit, Goal: g, Src: c.Src, Pos: ft.pos(fn.Pos())})
+		parts := splitConj(c.Expr)
+		for k, pe := range parts {
+			g, err := env.EvalBool(pe)
+			if err != nil {
+				ft.shapeFail(c, err)
+				continue
+			}
+			pn := name
+			if len(parts) > 1 {
+				pn = fmt.Sprintf("%s.%d", name, k+1)
+			}
+			ft.oblige(&Obligation{Name: pn, Kind: "post", Tags: ft.clauseTags(c), Guard: exit, Goal: g, Src: c.Src, Pos: ft.pos(fn.Pos())})
+		}
 		// cover: the antecedent of an implication is reachable at exit
 		if bin, ok := c.Expr.(*EBinary); ok && bin.Op == "==>" {
 			if a, err := env.EvalBool(bin.X); err == nil {
@@ -289,7 +296,7 @@ func (ft *FT) Query(o *Obligation) string {
 	for _, d := range e.sorts.extraDecls {
 		_ = d
 	}
-	before, after, _ := e.prelude.Select(used)
+	before, after, _ := e.prelude.Select(used, o.Kind == "lemma")
 	var sb strings.Builder
 	sb.WriteString("(set-option :produce-models true)\n(set-logic ALL)\n")
 	fmt.Fprintf(&sb, "; function %s\n; obligation %s\n; clause: %s\n", ft.fn, o.Name, o.Src)
@@ -304,6 +311,13 @@ func (ft *FT) Query(o *Obligation) string {
 	}
 	for _, l := range after {
 		sb.WriteString(l + "\n")
+	}
+	for _, el := range sortedKeys(e.sorts.zeroArrays) {
+		n := "zeroarr." + symSafe(el)
+		if !used[n] {
+			continue
+		}
+		fmt.Fprintf(&sb, "(declare-const %s (Array Int %s))\n(assert (forall ((j Int)) (! (= (select %s j) %s) :pattern ((select %s j)))))\n", n, el, n, e.sorts.zeroArrays[el], n)
 	}
 	for _, l := range head {
 		sb.WriteString(l + "\n")
